@@ -263,10 +263,15 @@ class BranchFacts:
     def at(self, nid: int) -> frozenset[tuple[int, bool]]:
         return self.facts.get(nid, frozenset())
 
-    def formula_at(self, nid: int, fb: FormulaBuilder):
+    def formula_at(self, nid: int, fb: FormulaBuilder, expand=None):
+        """Conjunction of the facts at nid; `expand(expr, test_node_id)` may rewrite each test
+        (e.g. substitute locals by their definitions) before it is normalised."""
         parts = []
         for (t, pol) in sorted(self.at(nid)):
-            f = fb.build(self.cfg.node(t).ast)
+            e = self.cfg.node(t).ast
+            if expand is not None:
+                e = expand(e, t)
+            f = fb.build(e)
             parts.append(f if pol else f_not(f))
         return f_and(*parts)
 
@@ -307,3 +312,38 @@ def path_condition(cfg: CFG, region_entry: int, target: int, region: set[int], f
         return r
 
     return cond(target)
+
+
+def expand_locals(cfg: CFG, rd: ReachingDefs, expr: ast.AST, at: int, depth: int = 4,
+                  stop: Iterable[str] = ()) -> ast.AST:
+    """Substitute local names in expr by their defining expressions when they have exactly one
+    reaching definition of the form `name = <expr>` at node `at` (recursively, bounded).
+    Parameters, loop targets, with-targets and names with several definitions stay as they are."""
+    import copy
+    stop_s = set(stop)
+
+    class X(ast.NodeTransformer):
+        def __init__(self, at_node: int, d: int):
+            self.at = at_node
+            self.d = d
+
+        def visit_Name(self, node: ast.Name):
+            if not isinstance(node.ctx, ast.Load) or node.id in stop_s or self.d <= 0:
+                return node
+            dn = rd.single_def(self.at, node.id)
+            if dn is None or dn == cfg.entry:
+                return node
+            dv = rd.def_value(dn, node.id)
+            if dv is None or dv[0] != 'value':
+                return node
+            # the defining expression is evaluated at dn: expand it there
+            inner = X(dn, self.d - 1).visit(copy.deepcopy(dv[1]))
+            # only sound if the names the definition reads are not redefined between dn and at
+            for nm in names_read(inner):
+                if '.' in nm:
+                    continue
+                if rd.reaching(self.at, nm) != rd.reaching(dn, nm) and nm != node.id:
+                    return node
+            return inner
+
+    return X(at, depth).visit(copy.deepcopy(expr))
